@@ -92,3 +92,89 @@ def h_grouping(n: int, t0: int, t1: int, t2: int, t3: int) -> bool:
     ok = ok and mut.finished == list(range(n))        # every op finished once, in order
     ok = ok and len(_RecResult.made) == len(groups)
     return hx.verdict(ok, n >= 2)
+
+
+# ---------------------------------------------------------------------------------------
+# (c) real AppMutator / ModelMutator / SQLite evolver: one rebuild per model for any sequence of
+#     mergeable mutations (adds, deletes, attribute changes, Meta changes), however interleaved
+
+from django.db import models as _models
+
+from django_evolution.db.state import DatabaseState
+from django_evolution.mutations import AddField, ChangeField, ChangeMeta, DeleteField
+from django_evolution.mutators import AppMutator
+from django_evolution.signature import (AppSignature, FieldSignature, ModelSignature,
+                                        ProjectSignature)
+from django_evolution.utils.sql import SQLExecutor
+
+M_NAMES = ['A', 'B']
+
+
+def _start_project():
+    proj = ProjectSignature()
+    app = AppSignature(app_id='app')
+    proj.add_app_sig(app)
+    for name in M_NAMES:
+        ms = ModelSignature(model_name=name, table_name='app_' + name.lower(), pk_column='id',
+                            unique_together_applied=True)
+        ms.add_field_sig(FieldSignature('id', _models.AutoField, {'primary_key': True}))
+        ms.add_field_sig(FieldSignature('f', _models.CharField, {'max_length': 20}))
+        ms.add_field_sig(FieldSignature('g', _models.IntegerField, {'null': True}))
+        ms.add_field_sig(FieldSignature('h', _models.IntegerField, {}))
+        app.add_model_sig(ms)
+    return proj
+
+
+def _mergeable_mutation(kind, model, step):
+    """kind 0 AddField, 1 ChangeField(max_length), 2 ChangeField(null=False, initial), 3 DeleteField,
+    4 ChangeMeta(unique_together), 5 ChangeMeta(index_together). Each step uses its own field so
+    that every sequence is valid."""
+    if kind == 0:
+        return AddField(model, 'new%d' % step, _models.IntegerField, initial=step)
+    if kind == 1:
+        return ChangeField(model, 'f', initial=None, max_length=30 + step)
+    if kind == 2:
+        return ChangeField(model, 'g', initial=step, null=False)
+    if kind == 3:
+        return DeleteField(model, 'h')
+    if kind == 4:
+        return ChangeMeta(model, 'unique_together', [('f', 'id')])
+    return ChangeMeta(model, 'index_together', [('f', 'id')])
+
+
+def h_one_rebuild(n: int, k0: int, m0: int, k1: int, m1: int, k2: int, m2: int) -> bool:
+    """
+    pre: 2 <= n <= 3 and 0 <= k0 <= 5 and 0 <= k1 <= 5 and 0 <= k2 <= 5
+    pre: 0 <= m0 <= 1 and 0 <= m1 <= 1 and 0 <= m2 <= 1
+    pre: hx.in_part(k0, k1)
+    pre: not hx.excluded(n, k0, m0, k1, m1, k2, m2)
+    post: _
+    """
+    steps = [(k0, m0), (k1, m1), (k2, m2)][:n]
+    # each (kind, model) at most once: every kind touches a fixed field of its model
+    seen = []
+    for s in steps:
+        key = (hx.realize(s[0]), hx.realize(s[1]))
+        if key in seen:
+            return hx.verdict(True, False)
+        seen.append(key)
+    muts = [_mergeable_mutation(k, hx.pick(M_NAMES, m), i) for i, (k, m) in enumerate(steps)]
+    state = DatabaseState('default', scan=False)
+    for name in M_NAMES:
+        state.add_table('app_' + name.lower())
+    am = AppMutator(app_label='app', project_sig=_start_project(), database_state=state,
+                    database='default')
+    am.run_mutations(muts)
+    sql = am.to_sql()
+    with hx.NoTracing():
+        with SQLExecutor('default') as ex:
+            flat = [s for (s, p, _t, _n) in ex._prepare_sql(sql)]
+    ok = True
+    rebuilds = {}
+    for s in flat:
+        if s.startswith('ALTER TABLE "TEMP_TABLE" RENAME TO '):
+            t = s.split('RENAME TO ')[1].strip(' ;"')
+            rebuilds[t] = rebuilds.get(t, 0) + 1
+    for t, c in rebuilds.items():
+        ok = ok and c <= 1
+    return hx.verdict(ok, len(rebuilds) >= 1)
